@@ -647,14 +647,16 @@ func TestFamily(t *testing.T) {
 
 var hungReruns int // re-runs in which the client crashed or hung
 
-// rerunMatches runs the implementation again (up to three times) on a scenario for which no
+// rerunMatches runs the implementation again (up to twelve times) on a scenario for which no
 // schedule of the model reproduced the first run, and reports whether some run is reproduced
 // and satisfies the specification. A deterministic difference fails every time.
 func rerunMatches(sc Scenario, prop string) bool {
 	if hungReruns >= 3 {
 		return false // the client hangs on re-runs (a minute each): the verdict is settled
 	}
-	for k := 0; k < 3; k++ {
+	// (Twelve: on a heavily loaded machine the unusual interleavings of goroutines woken at the same
+	// virtual instant are the common ones, and three tries left 3 of 36 000 scenarios unmatched.)
+	for k := 0; k < 12; k++ {
 		rs, cid, _ := runChild(*flagOut, []Scenario{sc})
 		if cid >= 0 {
 			hungReruns++
